@@ -103,6 +103,11 @@ pub broadcast proof fn lemma_whole_of_int(n: int)
 {
     assert((n * D()) / D() == n && (n * D()) % D() == 0) by(nonlinear_arith) requires D() == 10000000000000000000000000000;
 }
+pub broadcast proof fn lemma_is_whole_of_int(n: int)
+    ensures #[trigger] is_whole(of_int(n))
+{
+    assert((n * D()) % D() == 0) by(nonlinear_arith) requires D() == 10000000000000000000000000000;
+}
 pub broadcast proof fn lemma_of_int_whole(q: int)
     requires is_whole(q)
     ensures #[trigger] of_int(whole(q)) == q
@@ -213,9 +218,15 @@ pub broadcast proof fn lemma_dmul_comm(a: int, b: int)
 pub broadcast group dec_lemmas {
     lemma_dmul_of_int, lemma_dmul_of_int_left, lemma_dmul_whole, lemma_whole_of_int, lemma_of_int_whole, lemma_of_int_sign,
     lemma_whole_dsub, lemma_round_sign, lemma_round_zero, lemma_round_whole, lemma_pmul_zero, lemma_whole_zero,
-    lemma_pmul_sign, lemma_whole_sign, lemma_of_int_inj, lemma_pmul_pos, lemma_whole_pos,
+    lemma_pmul_sign, lemma_whole_sign, lemma_of_int_inj, lemma_pmul_pos, lemma_whole_pos, lemma_is_whole_of_int,
 }
 
+// ---- representable range (A-RANGE; used in strict mode only): every value between 0 and an integer below 2^96
+#[verifier::external_body]
+pub broadcast proof fn axiom_fits_bounded(q: int, n: int)
+    requires 0 <= q <= of_int(n), 0 <= n < LIMIT96()
+    ensures #![trigger fits(q), of_int(n)] fits(q)
+{}
 // ---- assumed facts about rust_decimal's division (A-DEC-DIV)
 #[verifier::external_body]
 pub broadcast proof fn axiom_ddiv(a: int, b: int)
